@@ -18,9 +18,37 @@ import (
 
 type segCase struct {
 	durMS     uint32
-	mode      string // single | lazy | mux
+	mode      string // single | lazy | mux | muxlazy (-m -lazy)
 	mdatFirst bool
 	tracks    []trackSpec
+	cut       int // bytes removed from the end of the input file (a truncated download; mdat last only)
+}
+
+func isMux(mode string) bool { return mode == "mux" || mode == "muxlazy" }
+
+// toolModeArgs: the command line flags of a mode
+func toolModeArgs(mode string) []string {
+	switch mode {
+	case "lazy":
+		return []string{"-lazy"}
+	case "mux":
+		return []string{"-m"}
+	case "muxlazy":
+		return []string{"-m", "-lazy"}
+	}
+	return nil
+}
+
+// inputBytes: the synthesized file, truncated when the case says so
+func (c segCase) inputBytes() ([]byte, error) {
+	data, err := buildProgressive(c.tracks, c.mdatFirst)
+	if err != nil {
+		return nil, err
+	}
+	if c.cut > 0 && !c.mdatFirst && c.cut < len(data) {
+		data = data[:len(data)-c.cut]
+	}
+	return data, nil
 }
 
 // ---- witness strings:  seg|d=5000|mode=lazy|mf=0|v,1000,1,1,0,2.3,40:0:1:17/40:0:0:9;a,...
@@ -29,7 +57,11 @@ func (c segCase) witness() string {
 	for _, t := range c.tracks {
 		ts = append(ts, trackWitness(t))
 	}
-	return fmt.Sprintf("seg|d=%d|mode=%s|mf=%d|%s", c.durMS, c.mode, b2i(c.mdatFirst), strings.Join(ts, ";"))
+	w := fmt.Sprintf("seg|d=%d|mode=%s|mf=%d|%s", c.durMS, c.mode, b2i(c.mdatFirst), strings.Join(ts, ";"))
+	if c.cut > 0 {
+		w += fmt.Sprintf("|cut=%d", c.cut)
+	}
+	return w
 }
 
 func b2i(b bool) int {
@@ -105,10 +137,13 @@ func parseTrackWitness(s string) (trackSpec, error) {
 
 func parseSegWitness(w string) (segCase, error) {
 	f := strings.Split(w, "|")
-	if len(f) != 5 || f[0] != "seg" {
+	if (len(f) != 5 && len(f) != 6) || f[0] != "seg" {
 		return segCase{}, fmt.Errorf("bad witness")
 	}
 	var c segCase
+	if len(f) == 6 {
+		c.cut, _ = strconv.Atoi(strings.TrimPrefix(f[5], "cut="))
+	}
 	d, _ := strconv.ParseUint(strings.TrimPrefix(f[1], "d="), 10, 32)
 	c.durMS = uint32(d)
 	c.mode = strings.TrimPrefix(f[2], "mode=")
@@ -282,7 +317,7 @@ func genSegCase(r *hx.Rng, class int) segCase {
 	default:
 		c.durMS = uint32(r.Range(1, int(ms)+2))
 	}
-	c.mode = []string{"single", "lazy", "mux"}[r.Intn(3)]
+	c.mode = []string{"single", "lazy", "mux", "muxlazy"}[r.Intn(4)]
 	c.mdatFirst = r.Intn(4) == 0
 	return c
 }
@@ -293,7 +328,7 @@ var reMuxFile = regexp.MustCompile(`^o_media_(\d+)\.m4s$`)
 // runSegCase runs the built segmenter and evaluates the property. Returns a short outcome class.
 func runSegCase(c segCase, t tools, evals *int, verbose bool) string {
 	*evals++
-	data, err := buildProgressive(c.tracks, c.mdatFirst)
+	data, err := c.inputBytes()
 	if err != nil {
 		fail("harness", "synth-error", c.witness(), err.Error())
 		return "synth-error"
@@ -309,12 +344,7 @@ func runSegCase(c segCase, t tools, evals *int, verbose bool) string {
 		panic(err)
 	}
 	args := []string{"-d", strconv.Itoa(int(c.durMS))}
-	switch c.mode {
-	case "lazy":
-		args = append(args, "-lazy")
-	case "mux":
-		args = append(args, "-m")
-	}
+	args = append(args, toolModeArgs(c.mode)...)
 	args = append(args, "in.mp4", "o")
 	stdout, stderr, rc, timedOut := runTool(t.segmenter, args, dir, 20*time.Second)
 	if verbose {
@@ -338,7 +368,7 @@ func runSegCase(c segCase, t tools, evals *int, verbose bool) string {
 		path string
 	}
 	perTrack := map[int][]segf{} // index in c.tracks -> files
-	if c.mode == "mux" {
+	if isMux(c.mode) {
 		var fsx []segf
 		for _, e := range ents {
 			if m := reMuxFile.FindStringSubmatch(e.Name()); m != nil {
@@ -366,7 +396,7 @@ func runSegCase(c segCase, t tools, evals *int, verbose bool) string {
 		sort.Slice(files, func(i, j int) bool { return files[i].nr < files[j].nr })
 		trackID := uint32(1)
 		initPath := filepath.Join(dir, fmt.Sprintf("o_%s1_init.mp4", map[bool]string{true: "v", false: "a"}[tr.video]))
-		if c.mode == "mux" {
+		if isMux(c.mode) {
 			trackID = uint32(ti + 1)
 			initPath = filepath.Join(dir, "o_init.mp4")
 		}
